@@ -23,7 +23,7 @@ ENTRY = {
     ],
 }
 MANIFEST = {
-    "text": "Lean theorems (Props/C02.lean) over the transcribed matcher state machine, for every tree, source, hole placement and all five strictness levels, with explicit fuel bound cutFuel t = 4*size t <= matchFuel: self_match (hole-free code matches itself from any environment and binds nothing), cut_matches (each $NAME is bound to a named node with exactly the byte range it replaced), cut_matches_ellipsis (a trailing $$$NAME is bound to exactly the replaced run of siblings), with decide-checked counter-examples showing each hypothesis is needed. Tie to the code: on every run the real Pattern::try_new(...).node is compared with the model's structural cut for cut patterns over the 23-language corpus, and Pattern::match_node / get_match_len outcomes and bindings are replayed on the Lean model (5 strictness levels); the property oracle (must match, every hole bound to the node with the hole's byte range) runs on the implementation alone.",
+    "text": "Lean theorems (Props/C02.lean) over the transcribed matcher state machine, for every tree, source, hole placement and all five strictness levels, with explicit fuel bound cutFuel t = 4*size t <= matchFuel: self_match (hole-free code matches itself from any environment and binds nothing), cut_matches (each $NAME is bound to a named node with exactly the byte range it replaced), cut_matches_ellipsis (a trailing $$$NAME is bound to exactly the replaced run of siblings), with decide-checked counter-examples showing each hypothesis is needed. Tie to the code: on every run the real Pattern::try_new(...).node is compared with the model's structural cut for cut patterns over the 23-language corpus, and Pattern::match_node / get_match_len outcomes and bindings are replayed on the Lean model (5 strictness levels); the property oracle (must match, every hole bound to the node with the hole's byte range) runs on the implementation alone. The cut is also written as a contextual pattern (context = holed text, selector = kind of the cut node, admitted on the hole-free text): it must match the node and bind the holes — in every corpus language, so that the `$` rewriting of contextual patterns is exercised.",
     "note": "Trusted: Lean kernel + standard axioms; harness/driver glue; tree-sitter (parser is a parameter: trees are dumped and handed to the model). Whether a holed text parses to the same shape is the property's own hypothesis and is measured, not proved.",
     "technique": "Lean 4 proof by structural induction over trees on a fuel-indexed transcription of match_node.rs + differential correspondence on real trees of 23 languages",
 }
